@@ -12,6 +12,7 @@ fn main() {
   let stdout = std::io::stdout();
   let mut out = std::io::BufWriter::new(stdout.lock());
   let mut engine_state = h::engine::State::default();
+  let mut routing_state = h::routing::State::default();
   for line in stdin.lock().lines() {
     let line = line.unwrap();
     let line = line.trim();
@@ -30,6 +31,13 @@ fn main() {
         h::guarded(move || {
           let mut st = st;
           h::engine::run_op(&mut st, &parts)
+        })
+      }
+      "routing" => {
+        let st = std::panic::AssertUnwindSafe(&mut routing_state);
+        h::guarded(move || {
+          let mut st = st;
+          h::routing::run_op(&mut st, &parts)
         })
       }
       _ => "bad-component".to_string(),
